@@ -30,16 +30,10 @@ pub fn check(ctx: &Ctx, t: &mut Tape<'_>, r: &mut Report) -> CheckResult {
     let f = suite.stream(kind).unwrap();
     let bs = suite.info.bs;
     let key = gen_key(t, suite);
-    let iv = match kind {
-        StreamKind::Ctr(w, be) => gen_ctr_iv(t, bs, w, be),
-        _ => {
-            let _ = (t.byte(), t.u32(), t.idx(4));
-            gen_iv(t, bs)
-        }
-    };
+    let c = (suite.keyed)(&key);
+    let iv = gen_stream_iv(t, kind, bs, c.as_ref(), suite.info.has_dec);
     let nops = 1 + t.idx(12);
     let ty = f.type_name();
-    let c = (suite.keyed)(&key);
     let model = KsModel::new(c.as_ref(), kind, &iv);
     let lim = limit_blocks(kind);
     // largest byte position that can be expressed at all (u128) and is inside the keystream
